@@ -3,8 +3,10 @@
 (*   utils/queue/in_memory_delayed_priority_queue.go (+ priority_queue.go).    *)
 (*                                                                             *)
 (* Enq[i] = Enqueue(req):                                                      *)
-(*   e1  NewRequest (timestamp) . Lock . ensureWindowIsUpdated .               *)
-(*       (fast path | queue full | heap.Push) . Unlock                         *)
+(*   e1  NewRequest (timestamp) . Lock . ensureWindowIsUpdated                 *)
+(*   e1p while heap # {} and counter < Quota: Pop; hand over (the arrival      *)
+(*       serves the waiters before itself: processQueueItems)                  *)
+(*   e1d (fast path | queue full | heap.Push) . Unlock                         *)
 (*   e2  [yield point dpq.before_park]  the select is entered: the TTL timer   *)
 (*       is armed, the goroutine parks as receiver on done[i]                  *)
 (*   e3  woken by done[i] or by the TTL timer                                  *)
@@ -26,13 +28,19 @@
 (* Roll skips only requests whose waiter gave up (flag set under the lock),    *)
 (* and a waiter whose TTL fires re-checks done[i] under the lock.              *)
 (*                                                                             *)
+(* KF_Overtake = TRUE is the pinned code without step e1p: an arrival that      *)
+(* takes the mutex at a window boundary before the roll-over goroutine takes    *)
+(* the fresh quota although earlier requests wait; FALSE is the repaired code.  *)
+(*                                                                             *)
 (* TtlPeek = TRUE (non-vacuity) is a variant of the repaired hand-off in which   *)
 (* the waiter looks at done[i] when its TTL fires, *before* it re-takes the     *)
 (* mutex, instead of under it: a hand-over in between is counted but lost.      *)
 (*                                                                             *)
 (* Driver = TRUE restricts the interleavings to those a driver can force on    *)
 (* the real code with the lock-step clock and the yield point: arrivals, gate  *)
-(* releases and ticks happen only when every goroutine is blocked; the timers   *)
+(* releases and ticks happen only when every goroutine is blocked (an arrival    *)
+(* may also come right after a tick, before any timer of the new instant is      *)
+(* delivered - "early"); the timers   *)
 (* due at one instant are delivered one at a time, oldest first or youngest     *)
 (* first (chosen per tick), each after everything is blocked again; and the     *)
 (* roll-over goroutine can be held inside its critical section (right after     *)
@@ -42,7 +50,7 @@
 (* the linearization points; `ok` = every outcome so far was permitted by P.   *)
 EXTENDS Integers, FiniteSets, Sequences, TLC
 
-CONSTANTS Req, Prio, Ttl, Quota, W, QSize, MaxNow, KF_C10_LostHandoff, TtlPeek, Driver, KeepHist
+CONSTANTS Req, Prio, Ttl, Quota, W, QSize, MaxNow, KF_C10_LostHandoff, KF_Overtake, TtlPeek, Driver, KeepHist
 
 (*--algorithm DpqI {
 variables
@@ -50,7 +58,7 @@ variables
     counter = 0, wend = W,                 \* currentWindowCounter / currentWindowEndTime after the constructor
     heap = {},                             \* requests in the heap
     waitcnt = 0,                           \* sum of requestCounts
-    lock = "free",
+    lock = "free",                         \* "free" | "roll" | the request whose Enqueue holds the mutex
     ts = [i \in Req |-> -1],               \* Request.timestamp
     gated = [i \in Req |-> FALSE],         \* (Driver) the driver holds this request at the yield point
     parked = [i \in Req |-> FALSE],        \* blocked in the select: receiver on done[i]
@@ -61,14 +69,15 @@ variables
     deadline = [i \in Req |-> -1],         \* instant of the TTL timer
     stamp = [i \in Req |-> -1],            \* creation order of the TTL timer
     res = [i \in Req |-> "none"],          \* "ok" | "full" | "ttl"
-    relWin = [i \in Req |-> -1],           \* window in which Roll counted the request
+    relWin = [i \in Req |-> -1],           \* window in which the request was counted
     rollAt = W,                            \* instant of Roll's timer
     rollStamp = 0,                         \* creation order of Roll's timer
     seq = 1,                               \* next creation stamp
     rev = FALSE,                           \* (Driver) timers due at one instant are delivered youngest first
+    fired = FALSE,                         \* (Driver) a timer of the current instant has been delivered
     held = FALSE,                          \* (Driver) Roll is held inside its critical section
     cur = 0,
-    rq = <<>>, rel = <<>>, last = [ev |-> "init"],       \* DpqP
+    rq = <<>>, rel = <<>>, turn = {}, last = [ev |-> "init"],       \* DpqP
     ok = TRUE,
     strand = {},                           \* popped before its time-to-live ended, yet not released
     hist = <<>>;
@@ -92,38 +101,68 @@ define {
                                  \/ pc[i] = "e4" /\ lock # "free"
     \* ... and nothing is left to deliver: the driver acts
     Quiet == Settled /\ DueStamps = {} /\ pc["roll"] = "r0"
+    \* ... or nothing of the new instant has been delivered yet: an arrival can still come first
+    Early == Settled /\ DueStamps # {} /\ ~fired /\ pc["roll"] = "r0"
     \* bounded lag: what a timer woke has reacted before the next tick
     Prompt == /\ pc["roll"] = "r0" /\ now < rollAt
               /\ \A i \in Req : ~TimerDue(i) /\ pc[i] # "e4" /\ (pc[i] = "e3" => woke[i] = "no")
     Log(e) == IF KeepHist THEN Append(hist, e) ELSE hist
     CountRel == (P!Win(now) :> P!Rel(P!Win(now)) + 1) @@ rel
-    NewRq(i, st) == (i :> [st |-> st, arr |-> now, prio |-> Prio[i], ttl |-> Ttl[i], inq |-> st = "waiting"]) @@ rq
+    NewRq(i, st) == (i :> [st |-> st, arr |-> now, sub |-> 0, prio |-> Prio[i], ttl |-> Ttl[i], inq |-> st = "waiting"]) @@ rq
+}
+
+\* processQueueItems, one iteration: pop the best request and hand the slot over
+macro PopOne() {
+    with (i \in Mins) {
+        heap := heap \ {i};
+        if (IF KF_C10_LostHandoff THEN parked[i] ELSE ~gone[i]) {
+            \* the send succeeds: a parked receiver is taken out of its select
+            sig[i] := TRUE; counter := counter + 1; relWin[i] := P!Win(now);
+            if (parked[i]) { parked[i] := FALSE; woke[i] := "sig" };
+            ok := ok /\ P!CanRelease(i); rq := [rq EXCEPT ![i].st = "released"]; rel := CountRel;
+            last := [ev |-> "release", i |-> i];
+            turn := turn \cup P!TurnIn(rq, rel, now);
+        } else {
+            \* nobody receives: skipped.  Harmless when the waiter's TTL has fired, a lost hand-over otherwise
+            strand := IF woke[i] = "ttl" \/ gone[i] \/ now >= ts[i] + Ttl[i] THEN strand ELSE strand \cup {i};
+        }
+    }
 }
 
 process (Enq \in Req) {
-  e1: \* NewRequest . Lock . ensureWindowIsUpdated . (fast path | full | push) . Unlock
-      await lock = "free" /\ (Driver => Quiet);
+  e1: \* NewRequest . Lock . ensureWindowIsUpdated
+      await lock = "free" /\ (Driver => Quiet \/ Early);
+      lock := self;
       ts[self] := now;
-      with (c = IF NewEnd > wend THEN 0 ELSE counter; g \in IF Driver THEN BOOLEAN ELSE {FALSE}) {
-          wend := IF NewEnd > wend THEN NewEnd ELSE wend;
-          if (c < Quota) {
-              counter := c + 1; res[self] := "ok";
+      hist := Log([ev |-> "arrive", i |-> self, early |-> (DueStamps # {})]);
+      with (c = IF NewEnd > wend THEN 0 ELSE counter) {
+          counter := c; wend := IF NewEnd > wend THEN NewEnd ELSE wend;
+      };
+  e1p: \* (repaired) the waiters are served first
+      while (~KF_Overtake /\ heap # {} /\ counter < Quota) { PopOne() };
+  e1d: \* (fast path | full | push) . Unlock
+      lock := "free";
+      with (g \in IF Driver THEN BOOLEAN ELSE {FALSE}) {
+          if (counter < Quota) {
+              counter := counter + 1; res[self] := "ok";
               ok := ok /\ P!CanAdmit; rq := NewRq(self, "released"); rel := CountRel;
               last := [ev |-> "admit", i |-> self];
               hist := Log([ev |-> "enq", i |-> self, gate |-> FALSE]);
+              turn := turn \cup P!TurnIn(rq, rel, now);
               goto Done;
           } else if (waitcnt >= QSize) {
-              counter := c; res[self] := "full";
+              res[self] := "full";
               ok := ok /\ P!CanRejectFull; rq := NewRq(self, "rejected");
               last := [ev |-> "full", i |-> self];
               hist := Log([ev |-> "enq", i |-> self, gate |-> FALSE]);
               goto Done;
           } else {
-              counter := c; heap := heap \cup {self}; waitcnt := waitcnt + 1;
+              heap := heap \cup {self}; waitcnt := waitcnt + 1;
               ok := ok /\ P!CanEnqueue; rq := NewRq(self, "waiting");
               last := [ev |-> "enqueue", i |-> self];
               gated[self] := g;
               hist := Log([ev |-> "enq", i |-> self, gate |-> g]);
+              turn := turn \cup P!TurnIn(rq, rel, now);
           }
       };
   e2: \* [dpq.before_park] select entered: timer armed; a buffered value is taken at once, otherwise park
@@ -133,9 +172,9 @@ process (Enq \in Req) {
       if (sig[self]) { woke[self] := "sig" } else { parked[self] := TRUE };
       hist := IF gated[self] THEN Log([ev |-> "park", i |-> self]) ELSE hist;
       gated[self] := FALSE;
-  e3: \* woken: by Roll's hand-over (woke was set by Roll) or by the TTL timer (delivered in the driver's order)
+  e3: \* woken: by a hand-over (woke was set by the sender) or by the TTL timer (delivered in the driver's order)
       await woke[self] # "no" \/ (TimerDue(self) /\ (Driver => Settled /\ stamp[self] = NextStamp));
-      if (woke[self] = "no") { woke[self] := "ttl"; parked[self] := FALSE; peek[self] := sig[self] };
+      if (woke[self] = "no") { woke[self] := "ttl"; parked[self] := FALSE; peek[self] := sig[self]; fired := TRUE };
   e4: \* Lock . requestCounts-- . Unlock . return
       await lock = "free";
       waitcnt := waitcnt - 1;
@@ -148,20 +187,23 @@ process (Enq \in Req) {
           \* (TtlPeek) handed over after the look: the slot was counted, the caller is refused all the same.
           \* What can be observed is a refusal and a window in which one request less was let through
           res[self] := "ttl"; gone[self] := TRUE;
-          ok := ok /\ P!Expired(self) /\ P!NoSlotFor(self);
+          ok := ok /\ P!Expired(self);
           rq := [rq EXCEPT ![self].st = "rejected", ![self].inq = FALSE];
           rel := (relWin[self] :> rel[relWin[self]] - 1) @@ rel;
           last := [ev |-> "ttl", i |-> self];
+          turn := turn \cup P!TurnIn(rq, rel, now);
       } else {
           res[self] := "ttl"; gone[self] := TRUE;
           ok := ok /\ P!CanRejectTTL(self); rq := [rq EXCEPT ![self].st = "rejected", ![self].inq = FALSE];
           last := [ev |-> "ttl", i |-> self];
+          turn := turn \cup P!TurnIn(rq, rel, now);
       };
 }
 
 process (Roll = "roll") {
   r0: while (TRUE) {
       await now >= rollAt /\ (Driver => Settled /\ rollStamp = NextStamp);
+      fired := TRUE;
   r1: \* Lock . ensureWindowIsUpdated [the driver can hold the goroutine here, inside the critical section]
       await lock = "free";
       lock := "roll";
@@ -173,21 +215,7 @@ process (Roll = "roll") {
   rh: await ~held \/ (Settled /\ DueStamps = {});
       hist := IF held THEN Log([ev |-> "unhold"]) ELSE hist;
       held := FALSE;
-  r2: while (heap # {} /\ counter < Quota) {
-          with (i \in Mins) {
-              heap := heap \ {i};
-              if (IF KF_C10_LostHandoff THEN parked[i] ELSE ~gone[i]) {
-                  \* the send succeeds: a parked receiver is taken out of its select
-                  sig[i] := TRUE; counter := counter + 1; relWin[i] := P!Win(now);
-                  if (parked[i]) { parked[i] := FALSE; woke[i] := "sig" };
-                  ok := ok /\ P!CanRelease(i); rq := [rq EXCEPT ![i].st = "released"]; rel := CountRel;
-                  last := [ev |-> "release", i |-> i];
-              } else {
-                  \* nobody receives: skipped.  Harmless when the waiter's TTL has fired, a lost hand-over otherwise
-                  strand := IF woke[i] = "ttl" \/ gone[i] \/ now >= ts[i] + Ttl[i] THEN strand ELSE strand \cup {i};
-              }
-          }
-      };
+  r2: while (heap # {} /\ counter < Quota) { PopOne() };
   r3: lock := "free";
       rollAt := wend;
       rollStamp := seq; seq := seq + 1;
@@ -202,13 +230,15 @@ process (Clock = "clock") {
               hist := Log([ev |-> "tick", rev |-> r]);
           };
           now := now + 1;
+          fired := FALSE;
+          turn := turn \cup P!TurnIn(rq, rel, now);
       }
 }
 } *)
-\* BEGIN TRANSLATION (chksum(pcal) = "ef7f5ffb" /\ chksum(tla) = "64554498")
+\* BEGIN TRANSLATION (chksum(pcal) = "d13a5f53" /\ chksum(tla) = "4c40cdac")
 VARIABLES pc, now, counter, wend, heap, waitcnt, lock, ts, gated, parked, sig, 
           woke, peek, gone, deadline, stamp, res, relWin, rollAt, rollStamp, 
-          seq, rev, held, cur, rq, rel, last, ok, strand, hist
+          seq, rev, fired, held, cur, rq, rel, turn, last, ok, strand, hist
 
 (* define statement *)
 P == INSTANCE DpqP WITH PReq <- {}, PPrio <- <<>>, PTtl <- <<>>, PMaxNow <- 0
@@ -230,16 +260,19 @@ Settled == /\ pc["roll"] = "r0" \/ (pc["roll"] = "rh" /\ held)
 
 Quiet == Settled /\ DueStamps = {} /\ pc["roll"] = "r0"
 
+Early == Settled /\ DueStamps # {} /\ ~fired /\ pc["roll"] = "r0"
+
 Prompt == /\ pc["roll"] = "r0" /\ now < rollAt
           /\ \A i \in Req : ~TimerDue(i) /\ pc[i] # "e4" /\ (pc[i] = "e3" => woke[i] = "no")
 Log(e) == IF KeepHist THEN Append(hist, e) ELSE hist
 CountRel == (P!Win(now) :> P!Rel(P!Win(now)) + 1) @@ rel
-NewRq(i, st) == (i :> [st |-> st, arr |-> now, prio |-> Prio[i], ttl |-> Ttl[i], inq |-> st = "waiting"]) @@ rq
+NewRq(i, st) == (i :> [st |-> st, arr |-> now, sub |-> 0, prio |-> Prio[i], ttl |-> Ttl[i], inq |-> st = "waiting"]) @@ rq
 
 
 vars == << pc, now, counter, wend, heap, waitcnt, lock, ts, gated, parked, 
            sig, woke, peek, gone, deadline, stamp, res, relWin, rollAt, 
-           rollStamp, seq, rev, held, cur, rq, rel, last, ok, strand, hist >>
+           rollStamp, seq, rev, fired, held, cur, rq, rel, turn, last, ok, 
+           strand, hist >>
 
 ProcSet == (Req) \cup {"roll"} \cup {"clock"}
 
@@ -265,10 +298,12 @@ Init == (* Global variables *)
         /\ rollStamp = 0
         /\ seq = 1
         /\ rev = FALSE
+        /\ fired = FALSE
         /\ held = FALSE
         /\ cur = 0
         /\ rq = <<>>
         /\ rel = <<>>
+        /\ turn = {}
         /\ last = [ev |-> "init"]
         /\ ok = TRUE
         /\ strand = {}
@@ -278,44 +313,89 @@ Init == (* Global variables *)
                                         [] self = "clock" -> "c0"]
 
 e1(self) == /\ pc[self] = "e1"
-            /\ lock = "free" /\ (Driver => Quiet)
+            /\ lock = "free" /\ (Driver => Quiet \/ Early)
+            /\ lock' = self
             /\ ts' = [ts EXCEPT ![self] = now]
+            /\ hist' = Log([ev |-> "arrive", i |-> self, early |-> (DueStamps # {})])
             /\ LET c == IF NewEnd > wend THEN 0 ELSE counter IN
-                 \E g \in IF Driver THEN BOOLEAN ELSE {FALSE}:
-                   /\ wend' = (IF NewEnd > wend THEN NewEnd ELSE wend)
-                   /\ IF c < Quota
-                         THEN /\ counter' = c + 1
-                              /\ res' = [res EXCEPT ![self] = "ok"]
-                              /\ ok' = (ok /\ P!CanAdmit)
-                              /\ rq' = NewRq(self, "released")
-                              /\ rel' = CountRel
-                              /\ last' = [ev |-> "admit", i |-> self]
-                              /\ hist' = Log([ev |-> "enq", i |-> self, gate |-> FALSE])
-                              /\ pc' = [pc EXCEPT ![self] = "Done"]
-                              /\ UNCHANGED << heap, waitcnt, gated >>
-                         ELSE /\ IF waitcnt >= QSize
-                                    THEN /\ counter' = c
-                                         /\ res' = [res EXCEPT ![self] = "full"]
-                                         /\ ok' = (ok /\ P!CanRejectFull)
-                                         /\ rq' = NewRq(self, "rejected")
-                                         /\ last' = [ev |-> "full", i |-> self]
-                                         /\ hist' = Log([ev |-> "enq", i |-> self, gate |-> FALSE])
-                                         /\ pc' = [pc EXCEPT ![self] = "Done"]
-                                         /\ UNCHANGED << heap, waitcnt, gated >>
-                                    ELSE /\ counter' = c
-                                         /\ heap' = (heap \cup {self})
-                                         /\ waitcnt' = waitcnt + 1
-                                         /\ ok' = (ok /\ P!CanEnqueue)
-                                         /\ rq' = NewRq(self, "waiting")
-                                         /\ last' = [ev |-> "enqueue", i |-> self]
-                                         /\ gated' = [gated EXCEPT ![self] = g]
-                                         /\ hist' = Log([ev |-> "enq", i |-> self, gate |-> g])
-                                         /\ pc' = [pc EXCEPT ![self] = "e2"]
-                                         /\ res' = res
-                              /\ rel' = rel
-            /\ UNCHANGED << now, lock, parked, sig, woke, peek, gone, deadline, 
-                            stamp, relWin, rollAt, rollStamp, seq, rev, held, 
-                            cur, strand >>
+                 /\ counter' = c
+                 /\ wend' = (IF NewEnd > wend THEN NewEnd ELSE wend)
+            /\ pc' = [pc EXCEPT ![self] = "e1p"]
+            /\ UNCHANGED << now, heap, waitcnt, gated, parked, sig, woke, peek, 
+                            gone, deadline, stamp, res, relWin, rollAt, 
+                            rollStamp, seq, rev, fired, held, cur, rq, rel, 
+                            turn, last, ok, strand >>
+
+e1p(self) == /\ pc[self] = "e1p"
+             /\ IF ~KF_Overtake /\ heap # {} /\ counter < Quota
+                   THEN /\ \E i \in Mins:
+                             /\ heap' = heap \ {i}
+                             /\ IF IF KF_C10_LostHandoff THEN parked[i] ELSE ~gone[i]
+                                   THEN /\ sig' = [sig EXCEPT ![i] = TRUE]
+                                        /\ counter' = counter + 1
+                                        /\ relWin' = [relWin EXCEPT ![i] = P!Win(now)]
+                                        /\ IF parked[i]
+                                              THEN /\ parked' = [parked EXCEPT ![i] = FALSE]
+                                                   /\ woke' = [woke EXCEPT ![i] = "sig"]
+                                              ELSE /\ TRUE
+                                                   /\ UNCHANGED << parked, 
+                                                                   woke >>
+                                        /\ ok' = (ok /\ P!CanRelease(i))
+                                        /\ rq' = [rq EXCEPT ![i].st = "released"]
+                                        /\ rel' = CountRel
+                                        /\ last' = [ev |-> "release", i |-> i]
+                                        /\ turn' = (turn \cup P!TurnIn(rq', rel', now))
+                                        /\ UNCHANGED strand
+                                   ELSE /\ strand' = (IF woke[i] = "ttl" \/ gone[i] \/ now >= ts[i] + Ttl[i] THEN strand ELSE strand \cup {i})
+                                        /\ UNCHANGED << counter, parked, sig, 
+                                                        woke, relWin, rq, rel, 
+                                                        turn, last, ok >>
+                        /\ pc' = [pc EXCEPT ![self] = "e1p"]
+                   ELSE /\ pc' = [pc EXCEPT ![self] = "e1d"]
+                        /\ UNCHANGED << counter, heap, parked, sig, woke, 
+                                        relWin, rq, rel, turn, last, ok, 
+                                        strand >>
+             /\ UNCHANGED << now, wend, waitcnt, lock, ts, gated, peek, gone, 
+                             deadline, stamp, res, rollAt, rollStamp, seq, rev, 
+                             fired, held, cur, hist >>
+
+e1d(self) == /\ pc[self] = "e1d"
+             /\ lock' = "free"
+             /\ \E g \in IF Driver THEN BOOLEAN ELSE {FALSE}:
+                  IF counter < Quota
+                     THEN /\ counter' = counter + 1
+                          /\ res' = [res EXCEPT ![self] = "ok"]
+                          /\ ok' = (ok /\ P!CanAdmit)
+                          /\ rq' = NewRq(self, "released")
+                          /\ rel' = CountRel
+                          /\ last' = [ev |-> "admit", i |-> self]
+                          /\ hist' = Log([ev |-> "enq", i |-> self, gate |-> FALSE])
+                          /\ turn' = (turn \cup P!TurnIn(rq', rel', now))
+                          /\ pc' = [pc EXCEPT ![self] = "Done"]
+                          /\ UNCHANGED << heap, waitcnt, gated >>
+                     ELSE /\ IF waitcnt >= QSize
+                                THEN /\ res' = [res EXCEPT ![self] = "full"]
+                                     /\ ok' = (ok /\ P!CanRejectFull)
+                                     /\ rq' = NewRq(self, "rejected")
+                                     /\ last' = [ev |-> "full", i |-> self]
+                                     /\ hist' = Log([ev |-> "enq", i |-> self, gate |-> FALSE])
+                                     /\ pc' = [pc EXCEPT ![self] = "Done"]
+                                     /\ UNCHANGED << heap, waitcnt, gated, 
+                                                     turn >>
+                                ELSE /\ heap' = (heap \cup {self})
+                                     /\ waitcnt' = waitcnt + 1
+                                     /\ ok' = (ok /\ P!CanEnqueue)
+                                     /\ rq' = NewRq(self, "waiting")
+                                     /\ last' = [ev |-> "enqueue", i |-> self]
+                                     /\ gated' = [gated EXCEPT ![self] = g]
+                                     /\ hist' = Log([ev |-> "enq", i |-> self, gate |-> g])
+                                     /\ turn' = (turn \cup P!TurnIn(rq', rel, now))
+                                     /\ pc' = [pc EXCEPT ![self] = "e2"]
+                                     /\ res' = res
+                          /\ UNCHANGED << counter, rel >>
+             /\ UNCHANGED << now, wend, ts, parked, sig, woke, peek, gone, 
+                             deadline, stamp, relWin, rollAt, rollStamp, seq, 
+                             rev, fired, held, cur, strand >>
 
 e2(self) == /\ pc[self] = "e2"
             /\ gated[self] => Quiet
@@ -332,7 +412,7 @@ e2(self) == /\ pc[self] = "e2"
             /\ pc' = [pc EXCEPT ![self] = "e3"]
             /\ UNCHANGED << now, counter, wend, heap, waitcnt, lock, ts, sig, 
                             peek, gone, res, relWin, rollAt, rollStamp, rev, 
-                            held, cur, rq, rel, last, ok, strand >>
+                            fired, held, cur, rq, rel, turn, last, ok, strand >>
 
 e3(self) == /\ pc[self] = "e3"
             /\ woke[self] # "no" \/ (TimerDue(self) /\ (Driver => Settled /\ stamp[self] = NextStamp))
@@ -340,13 +420,14 @@ e3(self) == /\ pc[self] = "e3"
                   THEN /\ woke' = [woke EXCEPT ![self] = "ttl"]
                        /\ parked' = [parked EXCEPT ![self] = FALSE]
                        /\ peek' = [peek EXCEPT ![self] = sig[self]]
+                       /\ fired' = TRUE
                   ELSE /\ TRUE
-                       /\ UNCHANGED << parked, woke, peek >>
+                       /\ UNCHANGED << parked, woke, peek, fired >>
             /\ pc' = [pc EXCEPT ![self] = "e4"]
             /\ UNCHANGED << now, counter, wend, heap, waitcnt, lock, ts, gated, 
                             sig, gone, deadline, stamp, res, relWin, rollAt, 
-                            rollStamp, seq, rev, held, cur, rq, rel, last, ok, 
-                            strand, hist >>
+                            rollStamp, seq, rev, held, cur, rq, rel, turn, 
+                            last, ok, strand, hist >>
 
 e4(self) == /\ pc[self] = "e4"
             /\ lock = "free"
@@ -354,38 +435,43 @@ e4(self) == /\ pc[self] = "e4"
             /\ IF woke[self] = "sig"
                   THEN /\ res' = [res EXCEPT ![self] = "ok"]
                        /\ rq' = [rq EXCEPT ![self].inq = FALSE]
-                       /\ UNCHANGED << gone, rel, last, ok >>
+                       /\ UNCHANGED << gone, rel, turn, last, ok >>
                   ELSE /\ IF ~KF_C10_LostHandoff /\ (IF TtlPeek THEN peek[self] ELSE sig[self])
                              THEN /\ res' = [res EXCEPT ![self] = "ok"]
                                   /\ rq' = [rq EXCEPT ![self].inq = FALSE]
-                                  /\ UNCHANGED << gone, rel, last, ok >>
+                                  /\ UNCHANGED << gone, rel, turn, last, ok >>
                              ELSE /\ IF sig[self]
                                         THEN /\ res' = [res EXCEPT ![self] = "ttl"]
                                              /\ gone' = [gone EXCEPT ![self] = TRUE]
-                                             /\ ok' = (ok /\ P!Expired(self) /\ P!NoSlotFor(self))
+                                             /\ ok' = (ok /\ P!Expired(self))
                                              /\ rq' = [rq EXCEPT ![self].st = "rejected", ![self].inq = FALSE]
                                              /\ rel' = (relWin[self] :> rel[relWin[self]] - 1) @@ rel
                                              /\ last' = [ev |-> "ttl", i |-> self]
+                                             /\ turn' = (turn \cup P!TurnIn(rq', rel', now))
                                         ELSE /\ res' = [res EXCEPT ![self] = "ttl"]
                                              /\ gone' = [gone EXCEPT ![self] = TRUE]
                                              /\ ok' = (ok /\ P!CanRejectTTL(self))
                                              /\ rq' = [rq EXCEPT ![self].st = "rejected", ![self].inq = FALSE]
                                              /\ last' = [ev |-> "ttl", i |-> self]
+                                             /\ turn' = (turn \cup P!TurnIn(rq', rel, now))
                                              /\ rel' = rel
             /\ pc' = [pc EXCEPT ![self] = "Done"]
             /\ UNCHANGED << now, counter, wend, heap, lock, ts, gated, parked, 
                             sig, woke, peek, deadline, stamp, relWin, rollAt, 
-                            rollStamp, seq, rev, held, cur, strand, hist >>
+                            rollStamp, seq, rev, fired, held, cur, strand, 
+                            hist >>
 
-Enq(self) == e1(self) \/ e2(self) \/ e3(self) \/ e4(self)
+Enq(self) == e1(self) \/ e1p(self) \/ e1d(self) \/ e2(self) \/ e3(self)
+                \/ e4(self)
 
 r0 == /\ pc["roll"] = "r0"
       /\ now >= rollAt /\ (Driver => Settled /\ rollStamp = NextStamp)
+      /\ fired' = TRUE
       /\ pc' = [pc EXCEPT !["roll"] = "r1"]
       /\ UNCHANGED << now, counter, wend, heap, waitcnt, lock, ts, gated, 
                       parked, sig, woke, peek, gone, deadline, stamp, res, 
                       relWin, rollAt, rollStamp, seq, rev, held, cur, rq, rel, 
-                      last, ok, strand, hist >>
+                      turn, last, ok, strand, hist >>
 
 r1 == /\ pc["roll"] = "r1"
       /\ lock = "free"
@@ -399,7 +485,7 @@ r1 == /\ pc["roll"] = "r1"
       /\ pc' = [pc EXCEPT !["roll"] = "rh"]
       /\ UNCHANGED << now, heap, waitcnt, ts, gated, parked, sig, woke, peek, 
                       gone, deadline, stamp, res, relWin, rollAt, rollStamp, 
-                      seq, rev, cur, rq, rel, last, ok, strand >>
+                      seq, rev, fired, cur, rq, rel, turn, last, ok, strand >>
 
 rh == /\ pc["roll"] = "rh"
       /\ ~held \/ (Settled /\ DueStamps = {})
@@ -408,8 +494,8 @@ rh == /\ pc["roll"] = "rh"
       /\ pc' = [pc EXCEPT !["roll"] = "r2"]
       /\ UNCHANGED << now, counter, wend, heap, waitcnt, lock, ts, gated, 
                       parked, sig, woke, peek, gone, deadline, stamp, res, 
-                      relWin, rollAt, rollStamp, seq, rev, cur, rq, rel, last, 
-                      ok, strand >>
+                      relWin, rollAt, rollStamp, seq, rev, fired, cur, rq, rel, 
+                      turn, last, ok, strand >>
 
 r2 == /\ pc["roll"] = "r2"
       /\ IF heap # {} /\ counter < Quota
@@ -428,17 +514,19 @@ r2 == /\ pc["roll"] = "r2"
                                  /\ rq' = [rq EXCEPT ![i].st = "released"]
                                  /\ rel' = CountRel
                                  /\ last' = [ev |-> "release", i |-> i]
+                                 /\ turn' = (turn \cup P!TurnIn(rq', rel', now))
                                  /\ UNCHANGED strand
                             ELSE /\ strand' = (IF woke[i] = "ttl" \/ gone[i] \/ now >= ts[i] + Ttl[i] THEN strand ELSE strand \cup {i})
                                  /\ UNCHANGED << counter, parked, sig, woke, 
-                                                 relWin, rq, rel, last, ok >>
+                                                 relWin, rq, rel, turn, last, 
+                                                 ok >>
                  /\ pc' = [pc EXCEPT !["roll"] = "r2"]
             ELSE /\ pc' = [pc EXCEPT !["roll"] = "r3"]
                  /\ UNCHANGED << counter, heap, parked, sig, woke, relWin, rq, 
-                                 rel, last, ok, strand >>
+                                 rel, turn, last, ok, strand >>
       /\ UNCHANGED << now, wend, waitcnt, lock, ts, gated, peek, gone, 
-                      deadline, stamp, res, rollAt, rollStamp, seq, rev, held, 
-                      cur, hist >>
+                      deadline, stamp, res, rollAt, rollStamp, seq, rev, fired, 
+                      held, cur, hist >>
 
 r3 == /\ pc["roll"] = "r3"
       /\ lock' = "free"
@@ -448,7 +536,7 @@ r3 == /\ pc["roll"] = "r3"
       /\ pc' = [pc EXCEPT !["roll"] = "r0"]
       /\ UNCHANGED << now, counter, wend, heap, waitcnt, ts, gated, parked, 
                       sig, woke, peek, gone, deadline, stamp, res, relWin, rev, 
-                      held, cur, rq, rel, last, ok, strand, hist >>
+                      fired, held, cur, rq, rel, turn, last, ok, strand, hist >>
 
 Roll == r0 \/ r1 \/ rh \/ r2 \/ r3
 
@@ -459,9 +547,11 @@ c0 == /\ pc["clock"] = "c0"
                       /\ rev' = r
                       /\ hist' = Log([ev |-> "tick", rev |-> r])
                  /\ now' = now + 1
+                 /\ fired' = FALSE
+                 /\ turn' = (turn \cup P!TurnIn(rq, rel, now'))
                  /\ pc' = [pc EXCEPT !["clock"] = "c0"]
             ELSE /\ pc' = [pc EXCEPT !["clock"] = "Done"]
-                 /\ UNCHANGED << now, rev, hist >>
+                 /\ UNCHANGED << now, rev, fired, turn, hist >>
       /\ UNCHANGED << counter, wend, heap, waitcnt, lock, ts, gated, parked, 
                       sig, woke, peek, gone, deadline, stamp, res, relWin, 
                       rollAt, rollStamp, seq, held, cur, rq, rel, last, ok, 
@@ -482,6 +572,7 @@ Spec == Init /\ [][Next]_vars
 Termination == <>(\A self \in ProcSet: pc[self] = "Done")
 
 \* END TRANSLATION 
+ 
  
  
 =============================================================================
